@@ -32,9 +32,10 @@ const (
 	layOutside    layoutKind = "operations-outside-the-config-directory"
 	layCRLF       layoutKind = "one-graphql-crlf-line-endings"
 	layCR         layoutKind = "one-graphql-bare-cr-line-endings"
+	layMixedEnds  layoutKind = "one-graphql-mixed-line-endings"
 )
 
-var allLayouts = []layoutKind{layOneFile, layPerDef, layPartition, layGoRaw, layGoRawNL, layGoInterp, layGoNested, layGoSameLine, laySameBase, layOutside, layCRLF, layCR}
+var allLayouts = []layoutKind{layOneFile, layPerDef, layPartition, layGoRaw, layGoRawNL, layGoInterp, layGoNested, layGoSameLine, laySameBase, layOutside, layCRLF, layCR, layMixedEnds}
 
 type placed struct {
 	File      string // relative file name
@@ -47,6 +48,30 @@ func layout(defs []gen.Def, kind layoutKind, r *proto.Rng) (map[string]string, [
 	where := make([]placed, len(defs))
 	block := func(d gen.Def) string { return d.Comment + d.Text }
 	nlines := func(s string) int { return strings.Count(s, "\n") }
+	if kind == layMixedEnds {
+		// every line of one .graphql file ends in its own way: "\n", "\r\n" or a bare "\r" (never a bare "\r" directly
+		// before a "\n", which would be ONE line end)
+		files, where = layout(defs, layOneFile, r)
+		for k, v := range files {
+			var sb strings.Builder
+			lastCR := false
+			for _, ch := range v {
+				if ch != '\n' {
+					sb.WriteRune(ch)
+					lastCR = false
+					continue
+				}
+				e := []string{"\n", "\r\n", "\r"}[r.Intn(3)]
+				if lastCR && e == "\n" {
+					e = "\r\n"
+				}
+				sb.WriteString(e)
+				lastCR = e == "\r"
+			}
+			files[k] = sb.String()
+		}
+		return files, where
+	}
 	if kind == layCRLF || kind == layCR {
 		// one .graphql file whose lines end in "\r\n" / a bare "\r" (the GraphQL lexer counts both as line ends)
 		files, where = layout(defs, layOneFile, r)
